@@ -17,7 +17,7 @@ class Prop(SeqProp):
     pid = "C08"
     model = "dll"
     anchors = ["windpyutils/structures/lists.py"]
-    quick_cases = 400
+    quick_cases = 1600
     thorough_cases = 6000
     rule = ("random operation sequences (append/prepend/extend/pre_extend/remove/pop_back/pop_front/move_to_front/"
             "move_to_back/move_after/rotate) on member nodes chosen by identity, payload classes {distinct, all equal, "
